@@ -36,6 +36,18 @@ Arguments ra_ge {V} _.
 Arguments ra_lt {V} _.
 Arguments ra_le {V} _.
 Arguments ra_values {V} _.
+(** Decimal.Attributes: all four bounds always hold a value (Decimal('-inf') / Decimal('inf') by default) *)
+Record rng4_attrs (V : Type) := {
+  r4_nillable : bool;
+  r4_gt : V; r4_ge : V; r4_lt : V; r4_le : V;
+  r4_values : list V
+}.
+Arguments r4_nillable {V} _.
+Arguments r4_gt {V} _.
+Arguments r4_ge {V} _.
+Arguments r4_lt {V} _.
+Arguments r4_le {V} _.
+Arguments r4_values {V} _.
 Record ord_ops (V : Type) := { oo_ltb : V -> V -> bool; oo_leb : V -> V -> bool; oo_eqb : V -> V -> bool }.
 Arguments oo_ltb {V} _ _ _.
 Arguments oo_leb {V} _ _ _.
